@@ -46,6 +46,7 @@ ASSUMPTIONS = ["context positions (independent table): payload[:2] for the index
 MIN_CONCLUSIVE_FRACTION = 0.8
 DTM = "2023-01-01T00:00:00.000000"
 HGI = "18:000730"
+NULL_0418 = "000000B0000000000000000000007FFFFF7000000000"  # the controller's 'no such log entry' reply
 
 # codes whose request carries a context, and where (independent of the code's own tables)
 CTX_POS = {"0005": [(0, 4)], "000C": [(0, 4)], "0404": [(0, 2), (10, 12)], "0418": [(4, 6)], "3220": [(4, 6)]}
@@ -288,6 +289,18 @@ def h_correlate(ctx, f, pay, reply_pay, nsym, miss, ctor=None):
             rp = rp[:start] + symx.sym_hex(ctx, "r", k) + rp[start + k :]
         return rp
 
+    if miss == "early":
+        # ---- the device's reply overtakes the echo: still recognised as the reply
+        if not expects_reply or reply_pay is None:
+            return "no-reply-due"
+        rp = reply_payload(syms)
+        try:
+            rpkt = _pkt(_frame(rverb, dev, gw, "--:------", code, rp))
+        except (exc.PacketInvalid, ValueError):
+            return "reply-not-a-packet"
+        we.pkt_rcvd(rpkt)
+        ctx.check(len(c.trans) == 1 and c.trans[0][0] == "IsInIdle" and c.trans[0][1] is rpkt, "C06:reply-before-echo-recognised-and-returned", info=str(c.trans)[:80])
+        return "early-reply"
     if miss is None:
         # ---- the echo, as the gateway reports it (real id substituted)
         echo = _pkt(_frame(verb, gw, dev, "--:------", code, payload))
@@ -342,10 +355,12 @@ def h_correlate(ctx, f, pay, reply_pay, nsym, miss, ctor=None):
         overb_e = symx.choice(ctx, "overb", [v for v in ("RQ", " W", " I", "RP") if v != verb])
         e_line = _frame(overb_e, gw, dev, "--:------", code, payload)
         overb_r = " I" if rverb == "RP" else "RP"
-        r_line = _frame(overb_r, dev, gw, "--:------", code, reply_payload(syms)) if reply_pay else None
+        rp_ = NULL_0418 if code == "0418" and symx.flag(ctx, "null_entry") else (reply_payload(syms) if reply_pay else None)
+        r_line = _frame(overb_r, dev, gw, "--:------", code, rp_) if rp_ else None
     elif miss == "device":
         e_line = _frame(verb, gw, other_dev, "--:------", code, payload)
-        r_line = _frame(rverb, other_dev, gw, "--:------", code, reply_payload(syms)) if reply_pay else None
+        rp_ = NULL_0418 if code == "0418" and symx.flag(ctx, "null_entry") else (reply_payload(syms) if reply_pay else None)
+        r_line = _frame(rverb, other_dev, gw, "--:------", code, rp_) if rp_ else None
     else:
         raise ValueError(miss)
     try:
@@ -394,15 +409,15 @@ def queries(tier, seed):
         seen.add(key + (n,))
         tag = f"{f['verb']}|{f['code']}|{len(pay) // 2}#{n}"
         nsym = 16 if thorough else 8
-        for miss in (None, "context", "code", "verb", "device"):
+        for miss in (None, "early", "context", "code", "verb", "device"):
             prm = {"h": "correlate", "f": f, "pay": pay, "reply": reply, "nsym": nsym, "miss": miss}
-            qs.append(Query(f"{'match' if miss is None else 'miss-' + miss}[{tag}]", lambda c, a=(f, pay, reply, nsym, miss): h_correlate(c, *a), prm, group="match" if miss is None else "miss", max_secs=300 if thorough else 90, max_paths=50_000,
+            qs.append(Query(f"{'match' if miss is None else ('early' if miss == 'early' else 'miss-' + miss)}[{tag}]", lambda c, a=(f, pay, reply, nsym, miss): h_correlate(c, *a), prm, group="match" if miss in (None, "early") else "miss", max_secs=300 if thorough else 90, max_paths=50_000,
                             mode=("bv" if f["code"] == "3220" and False else "int"), weight=len(pay) / 20 + 1))
 
     for name in constructors():
-        for miss in (None, "context", "code", "verb", "device"):
+        for miss in (None, "early", "context", "code", "verb", "device"):
             prm = {"h": "correlate", "f": None, "pay": None, "reply": None, "nsym": 8, "miss": miss, "ctor": name}
-            qs.append(Query(f"{'match' if miss is None else 'miss-' + miss}[{name}]", lambda c, a=(None, None, None, 8, miss, name): h_correlate(c, *a), prm, group="match" if miss is None else "miss", max_secs=300 if thorough else 90, max_paths=50_000, weight=3))
+            qs.append(Query(f"{'match' if miss is None else ('early' if miss == 'early' else 'miss-' + miss)}[{name}]", lambda c, a=(None, None, None, 8, miss, name): h_correlate(c, *a), prm, group="match" if miss in (None, "early") else "miss", max_secs=300 if thorough else 90, max_paths=50_000, weight=3))
 
     def canary(c):
         # a reply for another zone must not be claimed recognised
@@ -464,6 +479,13 @@ def replay(item):
     expects_reply = cmd.rx_header is not None
     desc = f"request {req!r} (tx {cmd.tx_header}, rx {cmd.rx_header}), gateway {gw}: "
     bad = []
+    if miss == "early":
+        r_line = _frame(rverb, dev, gw, "--:------", code, reply_payload(syms))
+        rpkt = _pkt(r_line)
+        we.pkt_rcvd(rpkt)
+        if not (len(c.trans) == 1 and c.trans[0][0] == "IsInIdle" and c.trans[0][1] is rpkt):
+            bad.append(f"reply {r_line!r} (hdr {rpkt._hdr}) arriving before the echo is not accepted: {[t[0] for t in c.trans]}")
+        return {"reproduced": bool(bad), "observed": (desc + "; ".join(bad))[:700], "signature": f"{verb}|{code}: {label.split(':', 1)[1]}"}
     if miss is None:
         e_line = _frame(verb, gw, dev, "--:------", code, payload)
         echo = _pkt(e_line)
@@ -499,10 +521,12 @@ def replay(item):
         r_line = _frame(rverb, dev, gw, "--:------", cex["ocode"], reply_payload(syms)) if reply_pay else None
     elif miss == "verb":
         e_line = _frame(cex["overb"], gw, dev, "--:------", code, payload)
-        r_line = _frame(" I" if rverb == "RP" else "RP", dev, gw, "--:------", code, reply_payload(syms)) if reply_pay else None
+        rp_ = NULL_0418 if code == "0418" and cex.get("null_entry") else (reply_payload(syms) if reply_pay else None)
+        r_line = _frame(" I" if rverb == "RP" else "RP", dev, gw, "--:------", code, rp_) if rp_ else None
     else:
         e_line = _frame(verb, gw, other_dev, "--:------", code, payload)
-        r_line = _frame(rverb, other_dev, gw, "--:------", code, reply_payload(syms)) if reply_pay else None
+        rp_ = NULL_0418 if code == "0418" and cex.get("null_entry") else (reply_payload(syms) if reply_pay else None)
+        r_line = _frame(rverb, other_dev, gw, "--:------", code, rp_) if rp_ else None
     try:
         epkt = _pkt(e_line)
         we.pkt_rcvd(epkt)
